@@ -18,6 +18,15 @@ func init() {
 		p := p
 		props[p] = func(c *ctx) error { return runStack(c, p) }
 	}
+	// C16 also over sequential histories of real transactions (deletions, compactions whose result
+	// is empty, expiry, refused transactions): the directory listing at every idle point
+	props["c16"] = func(c *ctx) error {
+		if err := runStack(c, "c16"); err != nil {
+			return err
+		}
+		residueCheck = true
+		return runHistories(c, "c16")
+	}
 }
 
 type scenario struct {
